@@ -324,6 +324,8 @@ def make_case(rnd, cid, cls, fixed=None):
     else:
         target = gen_path(rnd, host, cls) + gen_query(rnd)
     target = fixed.get("target", target)
+    if target == b"*" and method == "OPTIONS":
+        method = "GET"          # "OPTIONS *" is answered by net/http's server itself, it never reaches the handler chain
     headers = fixed.get("headers")
     if headers is None:
         headers = gen_headers(rnd, cls, method)
@@ -366,7 +368,7 @@ def fixed_cases():
 
 def gen_cases(seed, tier):
     rnd = random.Random(seed)
-    n = 1500 if tier == "quick" else 20000
+    n = 3000 if tier == "quick" else 30000
     cases = [{"kind": "config", "services": SERVICES}]
     cid = 1
     for fx in fixed_cases():
@@ -589,9 +591,11 @@ def run(tier, seed):
         res.coverage.update({
             "evaluations": len(reqs),
             "distinct_nontrivial": len({json.dumps([c["method"], c["_target"], c["_host"], c["tls"], c["_headers"], c["_body"], c["_chunked"],
-                                                    c["resp"]], sort_keys=True) for c in reqs}),
+                                                    c["resp"]], sort_keys=True) for c, o in zip(reqs, robs) if o.get("hit")}),
             "rule": "hand-derived boundary targets first, then random structured exchanges drawn from VERIF_SEED: "
-                    "class mix valid/malformed/known-finding shapes as in input_distribution; a case is distinct by its raw request bytes",
+                    "class mix valid/malformed/known-finding shapes as in input_distribution; a case is non-trivial when it was forwarded to a target "
+                    "(only then the transparency clauses are evaluated; rejected and unrouted requests only check 'both reject') and distinct by "
+                    "its request (method, target, host, TLS, headers, body, framing) and scripted response",
             "input_distribution": {"class": dist, "shape": {k: int(v) for k, v in shape.items()}},
             "model_branches": dict(zip(["rejected_400", "not_found_404", "forwarded_no_strip", "forwarded_strip", "unmodelled"], branches)),
             "outcome_distribution": outcomes, "service_hits": svc_hits,
